@@ -223,9 +223,9 @@ pub fn gen_duration(d: &mut Dec) -> TimeDelta {
     }
 }
 
-const UNI: [char; 30] = [
+const UNI: [char; 36] = [
     'a', 'Z', '0', ' ', '_', '"', '\\', '\n', '\t', '\r', 'ß', 'é', 'Σ', 'σ', 'ǅ', 'İ', 'ı', '\u{a0}', '\u{2003}',
-    '\u{85}', '\u{200b}', '😀', '\u{301}', '\u{0}', ';', '@', ':', '/', '\'', '}',
+    '\u{85}', '\u{200b}', '😀', '\u{301}', '\u{0}', ';', '@', ':', '/', '\'', '}', '\u{201c}', '\u{201d}', '\u{2018}', '\u{ff02}', '\u{feff}', '\u{2029}',
 ];
 
 pub fn gen_string(d: &mut Dec) -> String {
@@ -236,10 +236,15 @@ pub fn gen_string(d: &mut Dec) -> String {
         let c = *d.pick(&['é', '€', 'ß']);
         return format!("{}{}", "x".repeat(pre), c.to_string().repeat(n));
     }
-    match d.below(7) {
+    match d.below(8) {
         0 => {
             let n = d.below(5);
             (0..n).map(|_| (b'a' + d.below(4) as u8) as char).collect()
+        }
+        7 => {
+            // lines: CR LF, LF and CR endings inside one text
+            let n = 1 + d.below(3);
+            (0..n).map(|i| format!("l{i}{}", *d.pick(&["\r\n", "\n", "\r", "\r\n\r\n", "\n\r"]))).collect()
         }
         1 => match d.pick(&pools().strings) {
             Value::String(x) => x.clone(),
@@ -577,6 +582,10 @@ pub fn gen_expr(d: &mut Dec, want: Ty, depth: u32, cfg: &ExprCfg) -> Expr {
         mk1(kind, gen_expr(d, ops[0], depth - 1, cfg))
     } else {
         let a = gen_expr(d, ops[0], depth - 1, cfg);
+        // now and then both operands are the very same expression
+        if d.below(10) == 9 && ops.get(1).map(|t| *t == ops[0]).unwrap_or(true) {
+            return mk2(kind, a.clone(), a);
+        }
         let b = gen_expr(d, *ops.get(1).unwrap_or(&Ty::Any), depth - 1, cfg);
         mk2(kind, a, b)
     }
